@@ -300,6 +300,7 @@ class State:
         self.flags = {}                 # name -> Bool or None (undefined)
         self.regions = {}               # region key -> {offset -> (word, byte index)}
         self.owned = set()              # regions whose map is private to this state (copy-on-write)
+        self.in_atomic = None           # set while a locked read-modify-write instruction accesses memory
         self.base_arr = None            # array giving unwritten bytes of symbol regions (M0 until an external call)
         self.spilled_regions = frozenset()
         self.heap = None                # z3 Array
@@ -313,6 +314,7 @@ class State:
         self.done = False
         self.steps = 0
         self.dead = False
+        self.cut = False
         self.stopped = False
         self.wild = False
         self.x87_overflowed = False
@@ -464,6 +466,11 @@ class State:
     def load(self, addr, nbytes):
         addr = simp(addr)
         k, off = self._route(addr)
+        if k is not None and k in self.m.volatile:
+            # a shared cell: other threads may have changed it since the last access, every read is a fresh value
+            v = self.m.fresh_bv("shared_%s_%d" % (k[1:], off), 8 * nbytes)
+            self.events.append(Event("vload", region=k, off=off, size=nbytes, value=v))
+            return v
         if k is not None:
             reg = self.regions.get(k)
             if reg is None:
@@ -498,6 +505,9 @@ class State:
         addr = simp(addr)
         val = simp(val)
         k, off = self._route(addr)
+        if k is not None and k in self.m.volatile:
+            self.events.append(Event("vstore", region=k, off=off, size=nbytes, value=val, atomic=self.in_atomic))
+            return
         if k is not None:
             reg = self.regions.get(k)
             if reg is None:
@@ -725,6 +735,8 @@ class Machine:
         self.insn_count = {}
         self.solver_checks = 0
         self._sem_cache = {}
+        self.volatile = set()             # region keys ("&sym") of shared cells: reads are fresh, writes are events
+        self.cut_loops = False            # True: a path that exceeds the unrolling bound is cut (marked), not an error
 
     def semantic_rsp_offset(self, addr, pc):
         """addr mentions RSP0 but is not syntactically RSP0+const (e.g. ((RSP0+31)/8)*8). With the psABI
@@ -849,6 +861,10 @@ class Machine:
             return []
         s.visits[key] = s.visits.get(key, 0) + 1
         if s.visits[key] > self.max_visits:
+            if self.cut_loops:
+                s.done = True
+                s.cut = True
+                return []
             raise BoundExceeded("loop unrolling bound %d exceeded at `%s` (line %d)" % (self.max_visits, ins.raw, ins.line))
         t_ok = self.feasible(s.pc + [cond])
         f_ok = self.feasible(s.pc + [z3.Not(cond)])
@@ -997,25 +1013,33 @@ class Machine:
 
     def g_xchg(self, s, ins, size):
         a, b = ins.ops
+        ismem = b.kind == "mem" or a.kind == "mem"
+        if ismem:
+            s.in_atomic = "xchg"          # xchg with a memory operand is implicitly locked
         va, vb = s.read(a, size), s.read(b, size)
-        if b.kind == "mem" or a.kind == "mem":
+        if ismem:
             mem = b if b.kind == "mem" else a
-            s.events.append(Event("atomic", op="xchg", addr=s.ea(mem), size=size))
+            s.events.append(Event("atomic", op="xchg", addr=s.ea(mem), size=size, observed=(vb if b.kind == "mem" else va),
+                                  new=(va if b.kind == "mem" else vb), locked=True))
         s.write(a, vb, size)
         s.write(b, va, size)
+        s.in_atomic = None
 
     def g_cmpxchg(self, s, ins, size):
         src, dst = ins.ops   # cmpxchg %reg, mem : compare acc with mem
         acc = Op("reg", reg="rax", size=size, shift=0)
         a = s.get(acc)
+        s.in_atomic = "cmpxchg" if ins.prefix == "lock" else None
         mval = s.read(dst, size)
         eq = simp(a == mval)
         if dst.kind == "mem":
-            s.events.append(Event("atomic", op="cmpxchg", addr=s.ea(dst), size=size, locked=(ins.prefix == "lock")))
+            s.events.append(Event("atomic", op="cmpxchg", addr=s.ea(dst), size=size, locked=(ins.prefix == "lock"),
+                                  observed=mval, expected=a, new=s.read(src, size), success=eq))
         self._sub_flags(s, a, mval, size)
         newmem = z3.If(eq, s.read(src, size), mval)
         newacc = z3.If(eq, a, mval)
         s.write(dst, simp(newmem), size)
+        s.in_atomic = None
         # on failure the accumulator is loaded (32-bit form zero-extends only when written)
         if size == 32:
             old = s.regs["rax"]
